@@ -4,6 +4,7 @@ package manager
 // tier for repaired ones, KNOWN-FINDING probes for open ones).
 
 import (
+	"context"
 	"fmt"
 	"os"
 	"path/filepath"
@@ -233,6 +234,48 @@ func c06FixedCase(name string) (string, any) {
 		if msg := s.checkTags(); msg != "" {
 			return fail(s, "%s", msg)
 		}
+	case "F-C06-inlined-tag-reference-time":
+		s, err := vfStart([][2]string{{"aa", ""}, {"bb", ""}}, nil, nil, false)
+		if err != nil {
+			return "setup: " + err.Error(), nil
+		}
+		defer s.close()
+		if err := s.call("AddTag tag/a time window", func(m *Manager) error {
+			return m.AddTag("tag/a", "#fff", `time:"2024-01-02 130000:2024-01-02 130010"`)
+		}); err != nil {
+			return fail(s, "%v", err)
+		}
+		for s.e.parkedCount("tag") > 0 {
+			if err := s.deliver("tag"); err != nil {
+				return fail(s, "%v", err)
+			}
+		}
+		// the wall clock must move on between the normalisation of the tag and its evaluation on demand
+		time.Sleep(30 * time.Millisecond)
+		if err := s.importCapture(0); err != nil {
+			return fail(s, "%v", err)
+		}
+		if err := s.deliver("import"); err != nil {
+			return fail(s, "%v", err)
+		}
+		// tag/a is pending for the new streams (its tagging job is parked); a view evaluates it on demand
+		v := s.e.mgr.GetView()
+		shown := map[uint64][]string{}
+		err = v.AllStreams(context.Background(), func(sc StreamContext) error {
+			tags, err := sc.AllTags()
+			shown[sc.Stream().ID()] = tags
+			return err
+		}, PrefetchAllTags())
+		v.Release()
+		_ = s.e.inLoop(func() {})
+		if err != nil {
+			return fail(s, "AllStreams: %v", err)
+		}
+		for id := uint64(0); id < 2; id++ {
+			if fmt.Sprint(shown[id]) != "[tag/a]" {
+				return fail(s, "stream %d (inside the time window of tag/a) is shown with tags %v while the tag is pending", id, shown[id])
+			}
+		}
 	default:
 		return "unknown fixed case", name
 	}
@@ -240,7 +283,7 @@ func c06FixedCase(name string) (string, any) {
 }
 
 func TestVerifC06Fixed(t *testing.T) {
-	vlib.Fixed(t, "C06", []string{"F-C06-id-only-tags", "F-C06-inherited-invalidation-lost", "F-C06-converter-reset-stale"}, c06FixedCase)
+	vlib.Fixed(t, "C06", []string{"F-C06-id-only-tags", "F-C06-inherited-invalidation-lost", "F-C06-converter-reset-stale", "F-C06-inlined-tag-reference-time"}, c06FixedCase)
 }
 
 func c09FixedCase(name string) (string, any) {
